@@ -17,12 +17,15 @@
 package nbs
 
 import (
+	"context"
 	"encoding/binary"
 	"io"
 	"os"
+	"time"
 
 	dherrors "github.com/dolthub/dolt/go/libraries/utils/errors"
 	"github.com/dolthub/dolt/go/store/hash"
+	"github.com/dolthub/fslock"
 )
 
 // Verification vocabulary (ghost code, compiled only with -tags verif). The
@@ -138,6 +141,23 @@ var verif_ghost struct {
 	jFileRoot    bool      // handed to the file with WriteAt
 	jDurableRoot bool      // followed by a successful fsync of the journal file
 	jRoot        hash.Hash // the root that record carries
+
+	// file manifest update protocol (updateWithChecker)
+	mTempSynced  bool      // the temporary manifest file was fsynced successfully
+	mValidated   bool      // the validation callback accepted (upstream, new contents)
+	mCheckedLock hash.Hash // lock of the upstream manifest the validation callback saw
+	mCheckedNew  hash.Hash // lock of the new contents the validation callback saw
+	mRenamed     bool      // the temporary file was renamed over the manifest
+	mDirSynced   bool      // the directory was fsynced after the rename
+	mLockHeld    bool      // the manifest file lock is held by this process
+
+	// root commit through a manifest (NomsBlockStore.updateManifest / ChunkJournal.Update)
+	uCalled   bool      // manifest.Update was invoked
+	uLastLock hash.Hash // the lastLock it was given
+	uNewRoot  hash.Hash // the root of the contents it was given
+	uNewLock  hash.Hash // the lock of the contents it was given
+	jCommitCalled  bool // journalWriter.commitRootHash was invoked
+	jBackingCalled bool // the backing manifest was updated (flushToBackingManifest)
 }
 
 // ---- stubs carrying the assumed contracts of external functions (see the extern blocks in verif_contracts.go)
@@ -151,3 +171,19 @@ func verif_x_Fatalf(behavior dherrors.FatalBehavior, msg string, args ...any) (e
 }
 
 func verif_x_io_ReadFull(r io.Reader, buf []byte) (n int, err error) { return io.ReadFull(r, buf) }
+
+func verif_x_validate(upstream, contents manifestContents) (err error) { return nil }
+
+func verif_x_file_Rename(oldpath, newpath string) (err error) { return nil }
+
+func verif_x_file_SyncDirectoryHandle(dir string) (err error) { return nil }
+
+func verif_x_manifest_Update(m manifestUpdater, ctx context.Context, behavior dherrors.FatalBehavior, lastLock hash.Hash, newContents manifestContents, stats *Stats, writeHook func() error) (mc manifestContents, err error) {
+	return m.Update(ctx, behavior, lastLock, newContents, stats, writeHook)
+}
+
+func verif_x_fslock_LockWithTimeout(l *fslock.Lock, timeout time.Duration) (err error) {
+	return l.LockWithTimeout(timeout)
+}
+
+func verif_x_fslock_Unlock(l *fslock.Lock) (err error) { return l.Unlock() }
